@@ -170,7 +170,7 @@ class Ctx:
         open(log, "w").write(p.stdout)
         if "[build failed]" in p.stdout or "[setup failed]" in p.stdout or re.search(r"^# ", p.stdout, re.M) and "FAIL" in p.stdout and "--- FAIL" not in p.stdout:
             raise Infra("go build failed for %s:\n%s" % (pkg, p.stdout[-3000:]))
-        if p.returncode == 124:
+        if p.returncode == 124 or "panic: test timed out after" in p.stdout:
             raise Infra("go test timeout for %s %s" % (pkg, run))
         return p.returncode, p.stdout
 
